@@ -188,6 +188,8 @@ class Aligner:
             if a.space == "pos":
                 return Tag("rank", "positions")
             return TOP
+        if name == "numpy.lexsort" and not args and "keys" in kw:
+            args = (kw["keys"],)      # np.lexsort(keys=(...))
         if name == "numpy.lexsort" and args and args[0][0] in ("tuple", "list") and args[0][1]:
             a = self.tag(args[0][1][-1])
             if a.space == "pos":
